@@ -17,10 +17,13 @@ CONSTANTS W,         \* MAX_REORG_HISTORY_SIZE      (10)
           NonceWin,  \* MAX_FUTURE_TRANSACTION_NONCES (10)
           AgeWin,    \* MAX_FUTURE_TRANSACTION_BLOCKS (10)
           MAXV,      \* image of 2^256-1 under the amount embedding
-          PragueFrom \* first height at which the Prague rules (current-txid helper) are in force on this network
+          PragueFrom,\* first height at which the Prague rules (current-txid helper) are in force on this network
+          Base       \* the database starts with Base committed, empty, server-generated blocks 0..Base-1 (brc20_mine(Base);
+                     \* commit) that the chain variable does not spell out: chain[1] is height Base.  0 everywhere except in the
+                     \* configurations that cross a network's activation height (275 000 blocks cannot be a TLC sequence)
 
 VARIABLES
-  chain,    \* Seq of finalised blocks; chain[h+1] is height h: [hash, ts, txs]
+  chain,    \* Seq of finalised blocks; chain[h-Base+1] is height h: [hash, ts, txs]
   cur,      \* block under construction: [n, hash, ts, txs]
   world,    \* [nonce, code, cells, bal, tok] - sparse functions, see Get/Put
   pool,     \* <<signer, nonce>> -> [tx, at, txid]  (the pending pool)
@@ -36,10 +39,15 @@ Get(f, k, d) == IF k \in DOMAIN f THEN f[k] ELSE d
 Put(f, k, v) == [x \in (DOMAIN f) \cup {k} |-> IF x = k THEN v ELSE f[x]]
 Del(f, k)    == [x \in (DOMAIN f) \ {k} |-> f[x]]
 
-Height  == Len(chain) - 1          \* -1 on an empty database (the API says 0)
-NextH   == Len(chain)
+Height  == Base + Len(chain) - 1   \* -1 on an empty database (the API says 0)
+NextH   == Base + Len(chain)
 Gen(h)  == "g" \o ToString(h)      \* the hash generated for a zero hash at height h
 Resolve(hash, h) == IF hash = "zero" THEN Gen(h) ELSE hash
+BaseTs  == 5                       \* the timestamp the harness mines the Base blocks with
+(* the block at height h of a chain sequence ch (heights below Base are the implicit mined blocks) *)
+BlkOf(ch, h) == IF h >= Base THEN ch[h - Base + 1] ELSE [hash |-> Gen(h), ts |-> BaseTs, txs |-> <<>>]
+Blk(h)  == BlkOf(chain, h)
+(* explicit hash tokens never spell a generated hash, and Gen(h) for h >= Base differs from every Gen below Base *)
 Hashes  == {chain[i].hash : i \in 1..Len(chain)}
 
 NoCur == [n |-> 0, hash |-> NULL, ts |-> 0, txs |-> <<>>]
@@ -275,7 +283,7 @@ ChainIds == UNION {{chain[i].txs[j].id : j \in 1..Len(chain[i].txs)} : i \in 1..
 CurIds   == {cur.txs[j].id : j \in 1..Len(cur.txs)}
 
 (* C19: what the Probe contract records of its execution context (slots 1..17, as the harness abstracts them) *)
-BlockHashBack(k) == IF k <= NextH /\ k <= 256 /\ k >= 1 THEN "h:" \o chain[NextH - k + 1].hash ELSE "h:zero"
+BlockHashBack(k) == IF k <= NextH /\ k <= 256 /\ k >= 1 THEN "h:" \o Blk(NextH - k).hash ELSE "h:zero"
 PDefault(s) == IF s \in {3, 10, 11, 12, 13, 14} THEN "h:zero" ELSE IF s \in {7, 8, 9} THEN "a:zero" ELSE IF s = 17 THEN "x:zero" ELSE "n:0"
 PCell(w, a, s) == Get(w.pcells, <<a, s>>, PDefault(s))
 ProbeWrite(w, tx, hash, ts) ==
@@ -399,7 +407,7 @@ FinaliseOk(ts, hash, count) ==
 RECURSIVE MineN(_, _, _, _, _, _)
 MineN(ch, sn, p, mx, k, ts) ==
   IF k = 0 THEN [ch |-> ch, sn |-> sn, p |-> p, mx |-> mx]
-  ELSE LET h == Len(ch)
+  ELSE LET h == Base + Len(ch)
            p1 == Sweep(p, h)
        IN  MineN(Append(ch, [hash |-> Gen(h), ts |-> ts, txs |-> <<>>]),
                  Append(sn, [world |-> world, pool |-> p1]), p1,
@@ -437,7 +445,7 @@ InitialiseOk(id, hash, ts, height, logs) ==
 
 (* same genesis again: accepted no-op *)
 InitialiseAgain(hash, height) ==
-  /\ height <= Height /\ chain[height + 1].hash = Resolve(hash, height)
+  /\ height <= Height /\ Blk(height).hash = Resolve(hash, height)
   /\ UNCHANGED vars
 
 -----------------------------------------------------------------------------
@@ -456,17 +464,18 @@ FallBack ==
 ApiHeight == IF Height < 0 THEN 0 ELSE Height          \* an empty database reports height 0
 
 ReorgAcceptable(n) == cur.n = 0 /\ n <= ApiHeight /\ n >= 0 /\ maxEver <= n + W
+ReorgModelled(n) == n >= Base \/ Height < 0      \* a target inside the implicit blocks is outside this model (Base > 0 only)
 
 (* Truncation to the end of block n.  Also for n = current height: whatever was submitted for the   *)
 (* block above n since the last boundary (transactions parked in the pending pool) goes as well.   *)
 ReorgOk(n) ==
-  /\ ReorgAcceptable(n)
+  /\ ReorgAcceptable(n) /\ ReorgModelled(n)
   /\ IF Height < 0
      THEN UNCHANGED vars
-     ELSE /\ chain' = SubSeq(chain, 1, n + 1)
-          /\ snaps' = SubSeq(snaps, 1, n + 1)
-          /\ world' = snaps[n + 1].world
-          /\ pool' = snaps[n + 1].pool
+     ELSE /\ chain' = SubSeq(chain, 1, n - Base + 1)
+          /\ snaps' = SubSeq(snaps, 1, n - Base + 1)
+          /\ world' = snaps[n - Base + 1].world
+          /\ pool' = snaps[n - Base + 1].pool
           /\ dur' = [chain |-> chain', world |-> world', pool |-> pool', snaps |-> snaps']
           /\ UNCHANGED <<cur, maxEver>>
 
@@ -474,13 +483,13 @@ ReorgOk(n) ==
 (* Initial state: an empty database directory *)
 Init ==
   /\ chain = <<>> /\ cur = NoCur /\ world = EmptyWorld /\ pool = <<>> /\ snaps = <<>>
-  /\ maxEver = -1
+  /\ maxEver = Base - 1
   /\ dur = [chain |-> <<>>, world |-> EmptyWorld, pool |-> <<>>, snaps |-> <<>>]
 
 -----------------------------------------------------------------------------
 (* Derived indexes and the chain-coherence laws (C06)                        *)
 
-AllTxs == UNION {{[b |-> i - 1, i |-> j - 1, tx |-> chain[i].txs[j]] : j \in 1..Len(chain[i].txs)} : i \in 1..Len(chain)}
+AllTxs == UNION {{[b |-> Base + i - 1, i |-> j - 1, tx |-> chain[i].txs[j]] : j \in 1..Len(chain[i].txs)} : i \in 1..Len(chain)}
             \cup {[b |-> NextH, i |-> j - 1, tx |-> cur.txs[j]] : j \in 1..Len(cur.txs)}
 
 TxById(id) == CHOOSE x \in AllTxs : x.tx.id = id
